@@ -56,7 +56,7 @@ Free(p) == ws[p] = 0 \/ p > src[ws[p]].cur
 Available == Cardinality({p \in Piece : having[p] # {}})
 
 I0(c) ==
-    [ done |-> [p \in 0 .. (c.np - 1) |-> FALSE],
+    [ done |-> [p \in 0 .. (c.np - 1) |-> p \in c.have0],   \* pieces already on disk when the picker is created (resumed torrent)
       writing |-> [p \in 0 .. (c.np - 1) |-> FALSE],
       having |-> [p \in 0 .. (c.np - 1) |-> {}],
       requested |-> [p \in 0 .. (c.np - 1) |-> {}],
